@@ -261,6 +261,25 @@ def api_sweep(run):
             df = rt.dx.from_pandas(pdf, npartitions=3)
             for fr in ("7D", "30D", "1D"):
                 check("freq=%s" % fr, pdf, df.repartition(freq=fr))
+    # unsorted / malformed division vectors, with and without force, through the method and the function: each request must
+    # either be refused or return exactly the rows, once, inside the requested divisions
+    import itertools
+    base = pd.DataFrame({"x": range(10)}, index=range(10))
+    dbase = rt.dx.from_pandas(base, npartitions=2)
+    vals = [-2, 0, 3, 5, 7, 9, 12]
+    vecs = [list(v) for k in (2, 3, 4) for v in itertools.permutations(vals, k)]
+    vecs = [v for i, v in enumerate(vecs) if v != sorted(v) and (i % (9 if run.tier == "quick" else 1) == 0)]
+    for v in vecs:
+        for force in (True, False):
+            for how in ("method", "function"):
+                n += 1
+                run.count(("api-unsorted", tuple(v), force, how))
+                r = try_(lambda: (dbase.repartition(divisions=v, force=force) if how == "method" else rt.dx.repartition(dbase, divisions=v, force=force)).compute())
+                if r[0] == "raise":
+                    continue
+                if sorted(r[1].x.tolist()) != base.x.tolist():
+                    run.violation("repartition(divisions=%s, force=%s) [%s] is accepted and returns %d rows (x: %s), the frame has 10" % (v, force, how, len(r[1]), sorted(r[1].x.tolist())[:14]),
+                                  {"kind": "api-unsorted", "divisions": v, "force": force, "how": how})
     # several repartitionings of ONE frame evaluated in one graph (their helper keys must not collide): every variant must
     # return exactly the rows it returns alone
     import dask
